@@ -163,15 +163,23 @@ def rebase_human_intraline_edit(trace, viol):
 
 @predicate("reset_multi_commit")
 def reset_multi_commit(trace, viol):
+    """reset --soft/--mixed HEAD~k then re-commit, where k >= 2 or the un-done commits contain a
+    human intra-line or whitespace-only edit of lines next to AI lines"""
     if viol.get("class") not in LEDGER_CLASSES:
         return False
-    def multi(o):
+
+    def is_reset(o):
         a = o.get("argv") or []
-        return o.get("op") == "git" and a[:1] == ["reset"] and any(
-            x.startswith("HEAD~") and x[5:].isdigit() and int(x[5:]) >= 2 for x in a)
-    rs = _index_of(trace, multi)
+        return o.get("op") == "git" and a[:1] == ["reset"] and any(x.startswith("HEAD~") for x in a)
+    rs = _index_of(trace, is_reset)
     st = viol.get("step")
-    return rs is not None and isinstance(st, int) and st > rs
+    if rs is None or not isinstance(st, int) or st <= rs:
+        return False
+    a = _ops(trace)[rs]["argv"]
+    k = max([int(x[5:]) for x in a if x.startswith("HEAD~") and x[5:].isdigit()] or [1])
+    human_ws = any(o.get("op") == "edit" and o.get("who") == "human" and (o.get("desc") or {}).get("kind") in ("reindent", "modify")
+                   for o in _ops(trace)[:rs])
+    return k >= 2 or human_ws
 
 
 def _pending_across_commit(trace, path, upto):
